@@ -335,15 +335,15 @@ namespace
                 {
                     const BSet& cx = own[t].get();
                     size_t n = cx.size();
-                    if (cx.block_count() != nblocks(n)) viol("invariant", "block_count-after-bad_alloc", "after a failed allocation block_count() == " + std::to_string(cx.block_count()) + " for size() == " + std::to_string(n));
+                    if (cx.block_count() != nblocks(n)) viol("invariant", "block_count-after-bad_alloc", "after a failed allocation / a throw of the caller's iterator block_count() == " + std::to_string(cx.block_count()) + " for size() == " + std::to_string(n));
                     if (n % W)
                     {
                         B last = cx.data()[cx.block_count() - 1];
-                        if (static_cast<B>(last >> (n % W)) != 0) viol("invariant", "unused-bits-after-bad_alloc", "after a failed allocation bits beyond size() == " + std::to_string(n) + " are set in the last block");
+                        if (static_cast<B>(last >> (n % W)) != 0) viol("invariant", "unused-bits-after-bad_alloc", "after a failed allocation / a throw of the caller's iterator bits beyond size() == " + std::to_string(n) + " are set in the last block");
                     }
                     size_t ones = 0;
                     for (size_t i = 0; i < n; ++i) ones += static_cast<bool>(cx[i]);
-                    if (cx.count() != ones) viol("invariant", "count-after-bad_alloc", "after a failed allocation count() disagrees with the bits");
+                    if (cx.count() != ones) viol("invariant", "count-after-bad_alloc", "after a failed allocation / a throw of the caller's iterator count() disagrees with the bits");
                 }
                 recover(t);
                 return false;
